@@ -6,6 +6,9 @@ C28  pydcop.algorithms: check_param_value / prepare_algo_params /
      synthetic definitions (int/float with allowed values, str without).        mode E
 C29  pydcop.commands.batch: regularize_parameters / parameters_configuration /
      build_option_for_parameters / build_option_string.                         mode E
+     (+ frame: the definition, the regularized definition and a combination are read,
+     not written; results do not share lists / dicts with their argument; a second
+     expansion of the same definition is the same)
 C31  pydcop.dcop.objects: AgentDef.route / hosting_cost / __getattr__ / extra_attr and
      create_agents, every cost a universally quantified real.                   mode B
 
@@ -567,6 +570,33 @@ def _b_has_empty_dict(defn):
     return (not defn) or any(isinstance(v, dict) and not v for v in defn.values())
 
 
+def _b_observe(d):
+    """a parameters definition / a combination as its owner reads it: keys in order, every value by type and content,
+    value lists and sub-definitions by identity too (a rebuilt but equal list is a write into the caller's dict)"""
+    out = []
+    for k, v in d.items():
+        if isinstance(v, dict):
+            out.append((k, "dict", id(v), tuple(_b_observe(v))))
+        elif isinstance(v, list):
+            out.append((k, "list", id(v), tuple((type(x).__name__, repr(x)) for x in v)))
+        else:
+            out.append((k, type(v).__name__, repr(v)))
+    return out
+
+
+def _b_scribble(x):
+    """edit a returned structure in place, at every level"""
+    if isinstance(x, dict):
+        for v in list(x.values()):
+            _b_scribble(v)
+        x["zz_added"] = ["zz"]
+    elif isinstance(x, list):
+        for v in x:
+            _b_scribble(v)
+        x.append("zz_appended")
+        x.reverse()
+
+
 def h_batch(env):
     P = _Prover(env)
     p = env.params
@@ -582,8 +612,13 @@ def h_batch(env):
     def expand(d):
         return B.parameters_configuration(B.regularize_parameters(d))
 
+    defn_before = _b_observe(defn)
+    keep = [v for v in defn.values()]   # (keeps the observed objects alive: identities stay meaningful)
     r = env.call(expand, defn)
     det = lambda: dict(definition=defn, got=r)  # noqa
+    # frame: the definition loaded from the batch file is read, not written (run_batch expands it once per problem set and
+    # once more for the estimation)
+    P("expand.frame.definition-unchanged", _b_observe(defn) == defn_before, lambda: dict(before=defn_before, after=_b_observe(defn)))
     if isinstance(r, Raised):
         if empty:
             P("expand.definition-without-parameters-has-exactly-one-empty-combination", False, det)
@@ -623,10 +658,15 @@ def h_batch(env):
             P("expand.order-of-combinations-independent-of-input-order", r2 == r, lambda: dict(definition=defn, permuted=d2, base=r[:6], got=r2[:6]))
             P("expand.text-of-combinations-independent-of-input-order", repr(r2) == base_repr, lambda: dict(definition=defn, permuted=d2, base=base_repr[:300], got=repr(r2)[:300]))
 
+    P("expand.frame.definition-unchanged", _b_observe(defn) == defn_before, lambda: dict(before=defn_before, after=_b_observe(defn)))
+    _b_frame_steps(env, P, B, defn, defn_before, r)
+
     # rendering: every chosen value exactly once, nothing else
     sample = r if len(r) <= 48 else r[:24] + r[-24:]
     for c in sample:
+        c_before = _b_observe(c)
         s = env.call(B.build_option_for_parameters, c)
+        P("render.frame.combination-unchanged", _b_observe(c) == c_before, lambda: dict(before=c_before, after=_b_observe(c)))
         if isinstance(s, Raised) or not isinstance(s, str):
             P("render.returns-a-string", False, lambda: (c, s))
             break
@@ -644,6 +684,39 @@ def h_batch(env):
             if not isinstance(v, dict):
                 one = env.call(B.build_option_string, k, v)
                 P("render.single-option-is-name-then-value", isinstance(one, str) and _b_parse(one) == collections.Counter([(k, str(v))]), lambda: (k, v, one))
+
+
+def _b_frame_steps(env, P, B, defn, defn_before, r):
+    """the two steps of the expansion taken apart: each one reads its argument and returns a structure of its own"""
+    reg = env.call(B.regularize_parameters, defn)
+    if isinstance(reg, Raised) or not isinstance(reg, dict):
+        return
+    reg_before = _b_observe(reg)
+    keep = list(reg.values())  # noqa
+    r1 = env.call(B.parameters_configuration, reg)
+    P("expand.frame.regularized-definition-unchanged-by-parameters_configuration", _b_observe(reg) == reg_before,
+      lambda: dict(before=reg_before, after=_b_observe(reg)))
+    if isinstance(r1, Raised):
+        return
+    # the combinations are the caller's (run_batch fills them into command lines, a caller may add defaults): editing them
+    # reaches neither the regularized definition nor the next expansion of it
+    r1_text = repr(r1)
+    P("expand.frame.two-step-expansion-equals-the-one-step-expansion", r1 == r, lambda: dict(definition=defn, one_step=r[:6], two_steps=r1[:6]))
+    for c in r1:
+        _b_scribble(c)
+    _b_scribble(r1)
+    P("expand.frame.regularized-definition-unchanged-by-editing-the-combinations", _b_observe(reg) == reg_before,
+      lambda: dict(before=reg_before, after=_b_observe(reg)))
+    r2 = env.call(B.parameters_configuration, reg)
+    P("expand.frame.second-expansion-of-the-same-regularized-definition-is-the-same", (not isinstance(r2, Raised)) and repr(r2) == r1_text,
+      lambda: dict(definition=defn, first=r1_text[:300], second=repr(r2)[:300]))
+    # the regularized definition is a structure of its own: editing it does not reach the definition it was made from
+    _b_scribble(reg)
+    P("expand.frame.definition-unchanged-by-editing-the-regularized-definition", _b_observe(defn) == defn_before,
+      lambda: dict(before=defn_before, after=_b_observe(defn)))
+    r3 = env.call(lambda: B.parameters_configuration(B.regularize_parameters(defn)))
+    P("expand.frame.second-expansion-of-the-same-definition-is-the-same", (not isinstance(r3, Raised)) and r3 == r,
+      lambda: dict(definition=defn, first=r[:6], second=(r3 if isinstance(r3, Raised) else r3[:6])))
 
 
 def _b_flat_specs(sizes, nmax):
